@@ -471,7 +471,7 @@ def obligations(tier):
     # "every batch it ever returns": for ANY state satisfying the batching invariant the batch is a window of the store
     # (hence made of points of the domain / of border rows on their facets, by WF) — the C09 step contract, restated for C08
     from contracts import c09
-    for which, rars in c09.CONSUMERS[:5]:
+    for which, rars in c09.CONSUMERS[:6]:
         for rar in rars:
             for cl in ("batch_is_window_of_store", "batch_shape"):
                 o = c09.consumer_ob(which, rar, cl)
